@@ -120,17 +120,29 @@ def apply_state(state, env):
     return env2
 
 
-def evaluate_real(e, state):
+BACKING = 'C06-backing-memory'
+CALLBACKS = {'n': 0}
+
+
+def backing_read(machine, a):
+    """A func_read callback: the content of concrete memory the state does not bind (what a loader gives to the evaluator)."""
+    CALLBACKS['n'] += 1
+    env = irsem.Env(seed=0)
+    env.memseed = BACKING
+    return exprgen.Int(env.load(int(a.arg.arg), a.size // 8), a.size)
+
+
+def evaluate_real(e, state, backing=False):
     from miasmx.expression.expression_eval_abstract import eval_abs
     st = dict((exprgen.fresh_copy(k), exprgen.fresh_copy(v)) for k, v in state.items())
-    m = eval_abs(st)
+    m = eval_abs(st, func_read=backing_read) if backing else eval_abs(st)
     return m.eval_expr(exprgen.fresh_copy(e), {})
 
 
-def judge(e, state, seedtag, want_const=False):
+def judge(e, state, seedtag, want_const=False, backing=False):
     """Returns None or (kind, detail, result)."""
     try:
-        r = evaluate_real(e, state)
+        r = evaluate_real(e, state, backing)
     except Exception as ex:
         # evaluator's own "undefined" signals are not violations when the reference agrees
         if isinstance(ex, ValueError) and ('div by 0' in str(ex) or 'Divide Error' in str(ex)):
@@ -147,6 +159,8 @@ def judge(e, state, seedtag, want_const=False):
         return ('width', 'expression %d bits, result %d bits (%s)' % (we, wr, r), r)
     any_cmp = False
     for env in make_envs(seedtag):
+        if backing:
+            env.memseed = BACKING
         try:
             env2 = apply_state(state, env)
             want = irsem.evaluate(e, env2)
@@ -194,12 +208,12 @@ def child_class(t, state):
     return k[4:]
 
 
-def check_case(sh, e, state, seedtag, origin, want_const=False):
+def check_case(sh, e, state, seedtag, origin, want_const=False, backing=False):
     c = exprgen.canon(e)
     sc = state_canon(state)
     reads = set(nm for nm, sz in irsem.free_names(e))
     binds = any((k.__class__.__name__ == 'ExprId' and k.name in reads) or k.__class__.__name__ == 'ExprMem' for k in state)
-    r = judge(e, state, seedtag, want_const)
+    r = judge(e, state, seedtag, want_const, backing)
     sh.case((c, sc), nontrivial=binds and (r is None or r[0] not in ('uncompared', 'undefined')), cls='%s:%s' % (origin, e.op if e.__class__.__name__ == 'ExprOp' else e.__class__.__name__))
     if r is None:
         return
@@ -217,15 +231,15 @@ def check_case(sh, e, state, seedtag, origin, want_const=False):
         n = exprgen.count_nodes(t)
         if n >= best[0]:
             continue
-        rt = judge(t, state, seedtag, want_const)
+        rt = judge(t, state, seedtag, want_const, backing)
         if rt is not None and rt[0] not in ('uncompared', 'undefined'):
             best = (n, t, rt)
     t, rt = best[1], best[2]
     import re
-    key = '%s/%s' % (re.sub(r'(Op[a-z]+?)(08|8|16|32)', r'\1N', child_class(t, state)), rt[0])
+    key = '%s%s/%s' % ('func_read:' if backing else '', re.sub(r'(Op[a-z]+?)(08|8|16|32)', r'\1N', child_class(t, state)), rt[0])
     sh.violation(key, 'eval_expr(%s) in state {%s}: %s [minimal failing sub-tree %s: %s]' % (
         e, ', '.join('%s: %s' % (k, v) for k, v in state.items()), r[1], t, rt[1]),
-        {'tree': c, 'state': sc, 'want_const': want_const})
+        {'tree': c, 'state': sc, 'want_const': want_const, 'backing': backing})
 
 
 LIFTER_OPS = ['+', '-', '*', '&', '|', '^', '<<', '>>', 'a>>', '<<<', '>>>', '==', 'parity', '!',
@@ -336,7 +350,42 @@ def shards(tier, seed):
     out += [('nary', i) for i in range(8 if tier == 'quick' else 64)]
     out += [('compose', i) for i in range(0, len(compose_cases()), 64)]
     out += [('pairs', w, o1) for w in (8, 32) for o1 in PAIR_OPS]
+    out += [('backing', i) for i in range(4)]
     return out
+
+
+def backing_cases(rng, part):
+    """Machines with a func_read callback (concrete memory the state does not bind comes from the callback): cells of several
+    widths at concrete addresses, read back at every offset and width, whole, partially, straddling two cells or a cell and
+    backing memory, directly and through a pointer the state binds to a constant."""
+    ex, mi = exprgen.M()
+    I = exprgen.Int
+    base = (0x1000, 0x40000, 0x7ffffff0, 0xfffffff0)[part]
+    layouts = [[(0, 32), (8, 8), (16, 16)], [(0, 8), (1, 8), (2, 16)], [(0, 16), (4, 32)], [(4, 32), (8, 32)], [(0, 64)], [(3, 8)]]
+    for lay in layouts:
+        for valkind in ('sym', 'const'):
+            state = {}
+            for off, w in lay:
+                v = ex.ExprId('v%d_%d' % (w, off), w) if valkind == 'sym' else I(rng.getrandbits(w), w)
+                state[ex.ExprMem(I((base + off) & 0xffffffff, 32), w)] = v
+            p = ex.ExprId('p32', 32)
+            for off in range(-4, 20):
+                for w in (8, 16, 32, 64):
+                    # C06 quantifies over same-address cells: the read starts where a bound cell starts (any width), or touches
+                    # no bound cell at all; reads that start inside a cell or run into one from below are C07's business
+                    same = any(off == o_ for o_, w_ in lay)
+                    disjoint = all(off + w // 8 <= o_ or o_ + w_ // 8 <= off for o_, w_ in lay)
+                    if not (same or disjoint):
+                        continue
+                    addr = (base + off) & 0xffffffff
+                    yield ex.ExprMem(I(addr, 32), w), dict(state), (part, tuple(lay), valkind, off, w, 'direct')
+                    if off % 3 == 0:
+                        st2 = dict(state)
+                        st2[p] = I((base - 16) & 0xffffffff, 32)
+                        yield ex.ExprMem(ex.ExprOp('+', p, I((off + 16) & 0xffffffff, 32)), w), st2, (part, tuple(lay), valkind, off, w, 'pointer')
+            # and inside an operation, so that the loaded value is used
+            o0 = lay[0][0]
+            yield ex.ExprOp('+', ex.ExprMem(I((base + o0) & 0xffffffff, 32), 8), ex.ExprMem(I((base + 64) & 0xffffffff, 32), 8)), dict(state), (part, tuple(lay), valkind, 'sum')
 
 
 def run_shard(shard, tier, seed):
@@ -365,6 +414,12 @@ def run_shard(shard, tier, seed):
         sh.sample({'operator': op, 'widths': widths, 'state': [hex(v) for v in combos[0]], 'result': _safe_str(e, dict((i_, exprgen.Int(v, i_.size)) for i_, v in zip(ids, combos[0])))}, 1)
         return sh
     rng = common.rng_for(seed, 'C06', shard[0], shard[1])
+    if shard[0] == 'backing':
+        CALLBACKS['n'] = 0
+        for e, state, tag in backing_cases(rng, shard[1]):
+            check_case(sh, e, state, ('b',) + tag, 'func_read', want_const=False, backing=True)
+        sh.counters['func_read_callbacks_observed'] += CALLBACKS['n']
+        return sh
     if shard[0] == 'pairs':
         # (x o2 M) o1 S under an enclosing node, M and S bound to boundary constants by the state, x (and y) symbolic: the
         # partially evaluated operand is handed to the simplifier with constants that only the state provides
@@ -429,5 +484,5 @@ def replay(w):
     sh = common.Shard()
     e = parse_canon(w['tree'])
     state = dict((parse_canon(k), parse_canon(v)) for k, v in w['state'])
-    check_case(sh, e, state, ('replay',), 'replay', want_const=w.get('want_const', False))
+    check_case(sh, e, state, ('replay',), 'replay', want_const=w.get('want_const', False), backing=w.get('backing', False))
     return [(v['key'], v['detail']) for v in sh.violations]
